@@ -72,20 +72,22 @@ func nonZeroPrefix(sector int) uint64 {
 }
 
 type env struct {
-	tb         testing.TB
-	syncWallet func()
-	lifeCases  int
-	life       *env // a second, independent host/chain for the contract lifecycle RPCs (lazily built)
-	cm         *chain.Manager
-	w          *wallet.SingleAddressWallet
-	hostKey    types.PrivateKey
-	renterKey  types.PrivateKey
-	net        *memnet.Net
-	server     *rhp4.Server
-	ec         *testutil.EphemeralContractor
-	ss         *testutil.EphemeralSectorStore
-	signer     *fundAndSign
-	cs         consensus.State
+	tb           testing.TB
+	syncWallet   func()
+	lifeCases    int
+	life         *env // a second, independent host/chain for the contract lifecycle RPCs (lazily built)
+	cm           *chain.Manager
+	w            *wallet.SingleAddressWallet
+	hostKey      types.PrivateKey
+	transportKey types.PrivateKey     // key of the transport identity in the different-keys regime
+	tc           rhp4.TransportClient // the transport the client functions of the current case use
+	renterKey    types.PrivateKey
+	net          *memnet.Net
+	server       *rhp4.Server
+	ec           *testutil.EphemeralContractor
+	ss           *testutil.EphemeralSectorStore
+	signer       *fundAndSign
+	cs           consensus.State
 
 	prices    proto4.HostPrices
 	pricesAt  time.Time
@@ -136,6 +138,7 @@ func newEnvWith(tb testing.TB, withSectors bool) *env {
 	e := &env{tb: tb}
 	n, genesis := testutil.V2Network()
 	e.hostKey, e.renterKey = seedKey("host"), seedKey("renter")
+	e.transportKey = seedKey("transport-identity")
 
 	db, tipstate, err := chain.NewDBStore(chain.NewMemDB(), n, genesis, nil)
 	if err != nil {
@@ -196,6 +199,7 @@ func newEnvWith(tb testing.TB, withSectors bool) *env {
 	tb.Cleanup(func() { e.ec.Close() })
 	e.server = rhp4.NewServer(e.hostKey, e.cm, &cloneContractor{e.ec}, e.w, sr, e.ss, rhp4.WithPriceTableValidity(time.Hour))
 	e.net = memnet.New(e.hostKey.PublicKey())
+	e.tc = e.net
 	go e.server.Serve(e.net, zap.NewNop())
 	tb.Cleanup(func() { e.net.Close(); e.server.Close() })
 
@@ -350,4 +354,20 @@ func (e *env) lifeEnv() *env {
 	}
 	e.lifeCases++
 	return e.life
+}
+
+// otherKeyTransport is the same stream transport presented under another identity: PeerKey() is not
+// the host key of the contract (separate / rotated transport identity, pooled connection, ...).
+type otherKeyTransport struct {
+	*memnet.Net
+	key types.PublicKey
+}
+
+func (t *otherKeyTransport) PeerKey() types.PublicKey { return t.key }
+
+func (e *env) transport(sameKey bool) rhp4.TransportClient {
+	if sameKey {
+		return e.net
+	}
+	return &otherKeyTransport{e.net, e.transportKey.PublicKey()}
 }
